@@ -20,6 +20,7 @@ CONSTANTS Keys,        \* e.g. {1,2,3}
           Cap0,        \* capacity hint
           Faults,      \* TRUE: check C18 at every callback point and explore PanicAt successors
           GetMode,     \* "get" (repaired) or "getAsCoded" (defect D1)
+          CapMode,     \* "fixed" (capacity = stored entries) or "asCoded" (8 << 2*black height, defect D5)
           Emit         \* TRUE: print one shortest path per distinct state (spec -> code replay)
 
 VARIABLES T, now, ents, path
@@ -106,7 +107,7 @@ IsEmptyOK == R!IsEmptyOK(T.root = E)
 \* C07 / C19: export from this state at every admissible time
 ExportOK == \A t \in now..MaxTime :
    /\ Export(T, t) = R!RefExport(t)
-   /\ ExportCap(T) <= 8 * Count(T) + 64
+   /\ (IF CapMode = "asCoded" THEN ExportCapAsCoded(T) ELSE ExportCap(T)) <= 8 * Count(T) + 64
 
 EmitCover == Emit => PrintT("COVER " \o I2S(Cap0) \o "|" \o path)
 =============================================================================
